@@ -21,7 +21,7 @@ RULE = ('cases = (page_count, firmware length, schedule, initial flash). Enumera
         'for page_count 16 (two schedules each: one cycling through busy-count patterns, one seeded random); lengths '
         'size-2..size for the four flash sizes; every assignment of 0..3 busy polls to each of the 3 operations of a 1-page '
         'run and the 6 operations of a 2-page run, every assignment of 0..B to the 9 operations of a 3-page run '
-        '(B=1 quick, B=2 thorough); seeded random (boundary-biased lengths, busy counts up to 6 (and a slow-part family with 64..1200 busy polls on chosen operations; a blank-pages family whose images contain whole pages of 0xff or 0x00 on non-blank flash), poll timeouts from '
+        '(B=1 quick, B=2 thorough); seeded random (boundary-biased lengths, busy counts up to 6 (and a slow-part family with 64..1200 busy polls on chosen operations; a blank-pages family whose images contain whole pages of 0xff or 0x00 on non-blank flash; an odd-files family: DFU-suffix / container-magic / filler look-alikes at the end or start of the image, images read through a named pipe or a symbolic link), poll timeouts from '
         '{0,1,2,5,10,100,255,256,65535,65536,2^24-1}, start in dfuIDLE or dfuERROR, initial flash original/erased/programmed) '
         'beyond. A case counts as non-trivial when the real host issued at least one request; distinct = distinct '
         '(page_count, length class [pages, aligned / 1 byte / 1023 bytes / other remainder, empty, full], start state, '
@@ -89,6 +89,21 @@ def fit_cases(tier):
                                   fill=','.join('{}:{}'.format(p, r.choice(['ff', 'ff', 'ff', '00'])) for p in holes),
                                   sched=F.sched_str(r.choice([0, 0, 3]), [r.choice(F.TIMEOUTS)], F.random_ops(r, 3 * F.pages_of(n), 3)),
                                   flash=r.choice(['d' * pc, 'oe' * (pc // 2), 'do' * (pc // 2), '-']))
+    # H. files whose bytes look like something else than code (a DFU suffix at the end, container magic at the start, text),
+    #    and files reached through a pipe or a symbolic link: the image is the file's bytes, all of them
+    tails = ['ffffffffffffffff' + '554644' + '10' + 'deadbeef', '0000' + '0000' + '0000' + '1a01' + '554644' + '10' + '12345678',
+             '554644' + '10' + '00000000', 'ff*16', 'ff*300', '00*16', '0a', '1a', '0d0a']
+    heads = ['44667553650100000000', '7f454c46010101', '3a3130303030303030', 'efbbbf', '4d5a', '00*8', 'ff*8']
+    for j in range(40 if tier == 'quick' else 400):
+        pg = r.randrange(1, 5)
+        n = pg * F.PAGE - r.choice([0, 0, 1, 16, 17, r.randrange(F.PAGE)])
+        kw = {}
+        if j % 4 != 3:
+            kw['tail' if j % 2 == 0 else 'head'] = r.choice(tails if j % 2 == 0 else heads)
+        if j % 4 >= 2:
+            kw['via'] = r.choice(['fifo', 'symlink'])
+        yield 'odd-files', dict(pc=16, length=n, salt=r.randrange(251), sched=F.sched_str(0, [r.choice(F.TIMEOUTS)], F.random_ops(r, 3 * F.pages_of(n), 2)),
+                                flash=r.choice(['-', 'd' * 16]), **kw)
     # G. very slow parts: one or more operations stay busy for hundreds of polls
     for j in range(24 if tier == 'quick' else 200):
         pg = r.randrange(1, 4)
